@@ -85,6 +85,12 @@ package memdb
 //@   safety off
 //@   ensures [C14:size-is-the-byte-count] result == p.kvSize
 
+// (what a transaction relies on when it applies the records of a batch: entering a record cannot fail)
+//@ func (*DB).Put
+//@   props C08 C11
+//@   safety off
+//@   ensures [C08,C11:entering-a-record-cannot-fail] result == nil
+
 // (left abstract for the lookups of package leveldb, which check what they do with its results; what Find returns is
 // the C14 contract above)
 //@ func (*DB).Find
